@@ -603,6 +603,9 @@ func WriteReport() {
 	rep := Report{Shard: os.Getenv("VRT_SHARD"), Results: records, Notes: notes}
 	b, _ := json.MarshalIndent(rep, "", " ")
 	name := strings.ReplaceAll(rep.Shard, "/", "_")
+	if tag := os.Getenv("VRT_SHARD_TAG"); tag != "" {
+		name = tag
+	}
 	if name == "" {
 		name = "0"
 	}
